@@ -260,7 +260,10 @@ fn main() {
             let s = &cat.sources[at + k];
             // short sources, plus the few-KB "medium" class (ids M..)
             // ... and the 33-90 KB "large" class (ids G..): size thresholds, pools of big vectors
-            if s.text.len() <= 200 || (s.id.starts_with('M') && s.text.len() <= 20_000) || s.id.starts_with('G') {
+            // ... and the three > 1 MiB sources that are one huge token each (cheap to lex):
+            // anything that treats calls on very large sources specially
+            let huge_cheap = matches!(s.id.as_str(), "L02" | "L11" | "L12");
+            if s.text.len() <= 200 || (s.id.starts_with('M') && s.text.len() <= 20_000) || s.id.starts_with('G') || huge_cheap {
                 if let Some(key) = refs.get(&s.id) {
                     if key.starts_with("R:") {
                         pool.push((s.id.clone(), s.text.clone(), key.clone()));
